@@ -9,7 +9,7 @@ pub use crate::time::Instant;
 /// `hint::spin_loop()` is a scheduler yield, so wait-for-progress spins are explorable.
 pub mod hint {
   pub fn spin_loop() {
-    shuttle::hint::spin_loop();
+    crate::ctx::spin_hint();
   }
 }
 
